@@ -208,7 +208,22 @@ pub struct CaseOut {
 /// cache of any decorated function has been touched, nothing is registered), so cases cannot
 /// leak state into each other and a replay in a fresh process sees exactly the same world.
 /// A child that does not answer within the watchdog time is killed and reported as exit 2.
-pub fn run_forked(f: impl FnOnce() -> CaseOut) -> CaseOut {
+/// Run `f` in a forked child (pristine copy of this process).  A child that does not finish
+/// within the watchdog is examined (stacks saved under work/hangs), killed and the case is
+/// run once more in a fresh child: only a hang that repeats ends the check as inconclusive.
+/// (A deadlock of the code under test is a scheduler verdict, not a hang; an endless loop
+/// repeats.)
+pub fn run_forked(f: impl Fn() -> CaseOut) -> CaseOut {
+    for attempt in 0..2 {
+        match run_forked_once(&f, attempt == 1) {
+            Some(out) => return out,
+            None => eprintln!("NOTE: a case child hung once; re-running the case in a fresh child"),
+        }
+    }
+    unreachable!()
+}
+
+fn run_forked_once(f: &dyn Fn() -> CaseOut, last_attempt: bool) -> Option<CaseOut> {
     unsafe {
         let mut fds = [0i32; 2];
         if libc::pipe(fds.as_mut_ptr()) != 0 {
@@ -247,11 +262,23 @@ pub fn run_forked(f: impl FnOnce() -> CaseOut) -> CaseOut {
             if r == 0 {
                 waited_ms += 1000;
                 if waited_ms >= watchdog_ms {
+                    // keep the evidence: stacks of the hung child
+                    let dir = format!("{}/work/hangs", VERIF_ROOT);
+                    let _ = std::fs::create_dir_all(&dir);
+                    let _ = std::process::Command::new("timeout")
+                        .args(["30", "gdb", "-p", &pid.to_string(), "-batch", "-ex", "thread apply all bt 25"])
+                        .stdout(std::fs::File::create(format!("{}/hang-{}.txt", dir, pid)).map(std::process::Stdio::from).unwrap_or(std::process::Stdio::null()))
+                        .stderr(std::process::Stdio::null())
+                        .status();
                     libc::kill(pid, libc::SIGKILL);
                     let mut st = 0;
                     libc::waitpid(pid, &mut st, 0);
-                    eprintln!("INCONCLUSIVE: case did not finish within {} s (hang); killed", watchdog_ms / 1000);
-                    std::process::exit(2);
+                    libc::close(fds[0]);
+                    if last_attempt {
+                        eprintln!("INCONCLUSIVE: case did not finish within {} s twice (hang); killed", watchdog_ms / 1000);
+                        std::process::exit(2);
+                    }
+                    return None;
                 }
                 continue;
             }
@@ -265,7 +292,7 @@ pub fn run_forked(f: impl FnOnce() -> CaseOut) -> CaseOut {
         let mut st = 0;
         libc::waitpid(pid, &mut st, 0);
         match serde_json::from_slice::<Value>(&buf) {
-            Ok(v) => caseout_from_json(&v),
+            Ok(v) => Some(caseout_from_json(&v)),
             Err(_) => {
                 eprintln!("INCONCLUSIVE: case child died without a result (wait status {:#x})", st);
                 std::process::exit(2);
